@@ -4,6 +4,7 @@
 From Coq Require Import NArith List Bool.
 Import ListNotations.
 From CXV Require Import Gen.TokTy Parse.Balanced Parse.BalancedThms Parse.Declarator Parse.DeclSpec Parse.DeclThms Parse.DeclPins.
+From CXV Require Import Parse.EnumList.
 From CXV Require Import Parse.Fold Parse.FoldThms Parse.FoldPlace.
 Open Scope N_scope.
 
@@ -29,6 +30,15 @@ Theorem function_declaration_decodes_partial : forall rt ps va n rest,
   ev (fun f => fn_decl f (decl_toks (TFn rt ps va) (Some n) ++ rest)) (DOk (n, rt, ps, va, rest)).
 Proof. exact fn_roundtrip. Qed.
 
+(* An enumerator list `{ A, B = expr, C }` (a trailing ',' allowed): every
+   enumerator is reported once, in order, with exactly the tokens of its value
+   (any token-level expression: brackets nested, '<' '>' free), for lists of any
+   length; what follows the '}' is untouched. *)
+Theorem enumerators_reported_exactly_partial : forall items tc rest,
+  Forall value_ok items -> (items = [] -> tc = false) ->
+  enum_list (S (length items)) [] (enum_body_toks items tc ++ rest) = DOk (items, rest).
+Proof. exact enumerators_roundtrip. Qed.
+
 (* The collecting visitor: the items found in the namespace reached by [path]
    are exactly the items written directly in that namespace -- through extern
    blocks, through `namespace a::b { }` headers, across re-openings -- in source
@@ -45,6 +55,7 @@ Proof. exact decl_sets_ok_true. Qed.
 Print Assumptions declarator_code_is_the_modelled_one.
 Print Assumptions one_entry_per_declarator_partial.
 Print Assumptions function_declaration_decodes_partial.
+Print Assumptions enumerators_reported_exactly_partial.
 Print Assumptions items_land_where_written.
 
 (* non-vacuity *)
@@ -60,4 +71,9 @@ Example c01_place_run :
   items_of (lookup [7; 8] (fold_ns [ENs [7] [EItem 1 1; ENs [8] [EItem 1 2]]; EItem 2 3;
                                     ENs [7; 8] [EExtern [EItem 1 4]; EClass 9 [EItem 1 5]]]))
   = [(1, 2); (1, 4)].
+Proof. vm_compute. reflexivity. Qed.
+
+Example c01_enum_run :
+  enum_list 3 [] (enum_body_toks [(1, None); (2, Some [mkTk 3 7; mkTk LP 0; mkTk 3 8; mkTk RP 0])] true ++ [ktok SEMI])
+  = DOk ([(1, None); (2, Some [mkTk 3 7; mkTk LP 0; mkTk 3 8; mkTk RP 0])], [ktok SEMI]).
 Proof. vm_compute. reflexivity. Qed.
